@@ -149,6 +149,9 @@ type LoopSpec struct {
 	Cut  bool // the loop head is a cut point: obligations in and after the loop see the entry facts and the invariants only
 }
 
+// retBase offsets the keys of FuncSpec.Before that belong to "before return N:" blocks
+const retBase = 100000
+
 type FuncSpec struct {
 	NoSafety   bool   // directive `nosafety`
 	Functional string // name of the specification function that stands for the result (directive `functional`)
@@ -171,7 +174,7 @@ type FuncSpec struct {
 	Reveal   []string
 	Hide     []string // spec functions kept uninterpreted while verifying this function (even if defined in its package)
 	Asserts  map[int][]*Clause // ghost assertions after the N-th call (source order, builtins excluded)
-	Before   map[int][]*Clause // ghost assertions just before the N-th call
+	Before   map[int][]*Clause // ghost assertions just before the N-th call (key retBase+N: just before the N-th return)
 	Cuts     map[int]bool      // "after call N cut:" everything learnt since entry is forgotten after these assertions
 	Use      map[int][]string  // "at call N use: l1, l2": only these callee postconditions are assumed at that call
 	// sortspec (comparator closures passed to sort.Slice)
@@ -1014,6 +1017,17 @@ func (db *SpecDB) LoadSpecFile(path string, pkgPath string) error {
 			}
 			{
 				var n int
+				if strings.HasPrefix(strings.TrimSpace(rest), "return") {
+					// before return N:  ghost assertions at the N-th return statement (source order); they may name body locals
+					spec := strings.TrimSuffix(strings.TrimSpace(strings.TrimPrefix(strings.TrimSpace(rest), "return")), ":")
+					fmt.Sscanf(spec, "%d", &n)
+					if n <= 0 {
+						return fail(ll, "before return N:")
+					}
+					curCall = -(retBase + n)
+					curLoop = nil
+					break
+				}
 				spec := strings.TrimSuffix(strings.TrimSpace(strings.TrimPrefix(rest, "call")), ":")
 				if strings.HasSuffix(strings.TrimSpace(spec), "cut") {
 					spec = strings.TrimSpace(strings.TrimSuffix(strings.TrimSpace(spec), "cut"))
